@@ -98,6 +98,7 @@ impl BitMask for NeonBits {
     #[inline]
     fn clear_high_bits(&self, n: usize) -> Self {
         debug_assert!(n <= Self::LEN);
-        Self(self.0 & u64::MAX >> (n * 4))
+        // clearing all the lanes is a shift by the full width
+        Self(self.0 & u64::MAX.checked_shr((n * 4) as u32).unwrap_or(0))
     }
 }
